@@ -283,6 +283,7 @@ def all_scenarios(deep=False):
         for arg in ARGS[op]:
             base = {'kind': 'elem', 'op': op, 'arg': arg, 'corrupt': None, 'refuse': None, 'drop': None}
             out.append(dict(base))
+            out.append(dict(base, early=True))
             a0, n = first(arg)
             if kind == 'r' and n > 0:
                 for pos in sorted({0, n // 2, n - 1}):
@@ -335,12 +336,13 @@ def _judge_element(sc):
         a0, n = first(arg)
         img[a0 + pos] = img.get(a0 + pos, test_mem(MEM, a0 + pos)) ^ x
     rig = c06_info.InfoRig([], [[ty, 0x10000, [1, 2, 3, 4, 5, 6, 7, 8]]], [])
+    rig.early = bool(sc.get('early'))        # replies dispatched before the requesting call returns
     for a, b in img.items():
         rig.image[(MEM, a)] = b
 
     def fail(cls, detail, expected=None, observed=None):
         return {'class': cls, 'case': dict(sc), 'expected': expected, 'observed': observed,
-                'detail': '%s(arg %r)%s: %s' % (op, arg, ''.join(' %s=%r' % (k, sc[k]) for k in ('corrupt', 'refuse', 'drop') if sc.get(k) is not None), detail)}
+                'detail': '%s(arg %r)%s: %s' % (op, arg, ''.join(' %s=%r' % (k, sc[k]) for k in ('corrupt', 'refuse', 'drop', 'early') if sc.get(k) is not None), detail)}
 
     k = _enumerate(rig)
     if len(rig.mem.mems) != 1:
@@ -364,7 +366,12 @@ def _judge_element(sc):
                 e.update_id_list(lambda el: None)
                 k = _drain(rig, k)
             rig.cur = []
-            start(e, arg, ok, bad)
+            rig.frames = [{'fresh': True, 'obs': rig.cur, 'lock': None, 'nested': False}]
+            rig.in_call += 1
+            try:
+                start(e, arg, ok, bad)
+            finally:
+                rig.in_call -= 1
         except Exception as ex:
             raised = repr(ex)
         return k, raised
